@@ -43,12 +43,12 @@ fn expand_brace_expr_member(bem: word::BraceExpressionMember) -> Box<dyn Iterato
             if start <= end {
                 Box::new((start..=end).step_by(increment).map(|n| n.to_string()))
             } else {
-                // Iterate from start down to end by decrementing.
-                #[allow(clippy::cast_possible_wrap)]
-                let increment = increment as i64;
+                // Iterate from start down to end by decrementing; stop rather than
+                // step below the smallest representable value.
+                let increment = increment as u64;
                 Box::new(
                     std::iter::successors(Some(start), move |&n| {
-                        let next = n - increment;
+                        let next = n.checked_sub_unsigned(increment)?;
                         (next >= end).then_some(next)
                     })
                     .map(|n| n.to_string()),
@@ -69,11 +69,12 @@ fn expand_brace_expr_member(bem: word::BraceExpressionMember) -> Box<dyn Iterato
             if start <= end {
                 Box::new((start..=end).step_by(increment).map(|c| c.to_string()))
             } else {
-                // Iterate from start down to end by decrementing.
-                let increment = increment as u32;
+                // Iterate from start down to end by decrementing; a step that is larger
+                // than any character simply ends the sequence.
+                let increment = u32::try_from(increment).unwrap_or(u32::MAX);
                 Box::new(
                     std::iter::successors(Some(start), move |&c| {
-                        let next = char::from_u32(c as u32 - increment)?;
+                        let next = char::from_u32((c as u32).checked_sub(increment)?)?;
                         (next >= end).then_some(next)
                     })
                     .map(|c| c.to_string()),
